@@ -101,6 +101,26 @@ func ZZ_C07_Merge() {
 			zz.Assert(s == nil, "after.nothing-new")
 		}
 	}
+	if zz.Param("remerge", 0) == 1 && from > 0 {
+		// the merge result is merged again, with the older files below it
+		again, err := Merge(dir, after)
+		zz.Assert(err == nil, "remerge.noerr")
+		if err != nil {
+			return
+		}
+		total := 0
+		for _, r := range again {
+			total += r.StreamCount()
+		}
+		zz.Assert(total == len(newest), "remerge.one-version-per-id")
+		for id, want := range newest {
+			r, s := zzLookup(again, id)
+			zz.Assert(s != nil, "remerge.visible")
+			if s != nil {
+				zzCheckStreamNoSource(r, want)
+			}
+		}
+	}
 }
 
 // zzCheckStreamNoSource: zzCheckStream without the first-packet-source lookup
